@@ -188,16 +188,16 @@ int pipe_write(int pipe, const uint8_t *buffer, size_t size)
 #define STREAM_OK(s) ((s) == REPROC_STREAM_IN || (s) == REPROC_STREAM_OUT || (s) == REPROC_STREAM_ERR)
 /* direction the child needs: stdin is read, stdout/stderr are written */
 #define CHILD_DIR_OK(s, fd) ((s) == REPROC_STREAM_IN ? (g.fds.rd & MASK_OF(fd)) != 0 : (g.fds.wr & MASK_OF(fd)) != 0)
-#define RTYPE (RD_T(redirect))
+#define RTYPE ((unsigned) OLD(redirect->type))
 #define PARENT_FALLS_BACK (gc.cfg_std_fileno[stream] < 0)
 #define OPENS_FILE (RTYPE == RT_DISCARD || RTYPE == RT_PATH || (RTYPE == RT_PARENT && PARENT_FALLS_BACK))
 
 CONTRACT(redirect_init)
-int redirect_init(pipe_type *parent, handle_type *child, REPROC_STREAM stream, reproc_redirect redirect, bool nonblocking, handle_type out)
-  REQ_(parent != NULL && child != NULL && (void *) parent != (void *) child)
+int redirect_init(pipe_type *parent, handle_type *child, REPROC_STREAM stream, reproc_redirect *redirect, bool nonblocking, handle_type out)
+  REQ_(parent != NULL && child != NULL && redirect != NULL && (void *) parent != (void *) child)
   REQ("C10/redirect_init.stream_valid", STREAM_OK(stream))
-  REQ("C10/redirect_init.operand_present", IMPLIES(RTYPE == RT_PATH, redirect.path != NULL) && IMPLIES(RTYPE == RT_FILE, redirect.file != NULL))
-  ASSIGNS(*parent, *child, G_FD, G_ERR)
+  REQ("C10/redirect_init.operand_present", IMPLIES(RD_T(*redirect) == RT_PATH, redirect->path != NULL) && IMPLIES(RD_T(*redirect) == RT_FILE, redirect->file != NULL))
+  ASSIGNS(*parent, *child, redirect->type, G_FD, G_ERR)
   ENS("C14/redirect_init.error_ghost_sane", G_ERR_SANE)
   ENS("C10/redirect_init.pipe_parent_holds_other_end", IMPLIES(RV == 0 && RTYPE == RT_PIPE, FD_NEW(*parent) && FD_NEW(*child) && *parent != *child && ONLY_NEW2(*parent, *child) && g.fds.obj[*child] >= OBJ_PIPE_BASE && (stream == REPROC_STREAM_IN ? ((g.fds.obj[*child] & 1) == 0 && g.fds.obj[*parent] == g.fds.obj[*child] + 1) : ((g.fds.obj[*parent] & 1) == 0 && g.fds.obj[*child] == g.fds.obj[*parent] + 1)) && CHILD_DIR_OK(stream, *child)))
   ENS("C17/redirect_init.pipe_parent_end_mode_child_end_blocking", IMPLIES(RV == 0 && RTYPE == RT_PIPE, ((g.fds.nonblock & MASK_OF(*parent)) != 0) == nonblocking && (g.fds.nonblock & MASK_OF(*child)) == 0))
@@ -205,10 +205,11 @@ int redirect_init(pipe_type *parent, handle_type *child, REPROC_STREAM stream, r
   ENS("C10/redirect_init.parent_stream", IMPLIES(RV == 0 && RTYPE == RT_PARENT && !PARENT_FALLS_BACK, *child == gc.cfg_std_fileno[stream] && FD_LEDGER_UNCHANGED))
   ENS("C10/redirect_init.parent_stream_missing_means_null_device", IMPLIES(RV == 0 && RTYPE == RT_PARENT && PARENT_FALLS_BACK, FD_NEW(*child) && ONLY_NEW1(*child) && g.fds.obj[*child] == OBJ_DEVNULL && CHILD_DIR_OK(stream, *child)))
   ENS("C10/redirect_init.discard_is_null_device", IMPLIES(RV == 0 && RTYPE == RT_DISCARD, FD_NEW(*child) && ONLY_NEW1(*child) && g.fds.obj[*child] == OBJ_DEVNULL && CHILD_DIR_OK(stream, *child)))
-  ENS("C10/redirect_init.path_opened_in_right_direction", IMPLIES(RV == 0 && RTYPE == RT_PATH, FD_NEW(*child) && ONLY_NEW1(*child) && CHILD_DIR_OK(stream, *child) && IMPLIES(redirect.path == gc.cfg_path[0], g.fds.obj[*child] == OBJ_PATH_BASE)))
-  ENS("C10/redirect_init.handle_is_users", IMPLIES(RV == 0 && RTYPE == RT_HANDLE, *child == redirect.handle && FD_LEDGER_UNCHANGED))
+  ENS("C10/redirect_init.path_opened_in_right_direction", IMPLIES(RV == 0 && RTYPE == RT_PATH, FD_NEW(*child) && ONLY_NEW1(*child) && CHILD_DIR_OK(stream, *child) && IMPLIES(redirect->path == gc.cfg_path[0], g.fds.obj[*child] == OBJ_PATH_BASE)))
+  ENS("C10/redirect_init.handle_is_users", IMPLIES(RV == 0 && RTYPE == RT_HANDLE, *child == redirect->handle && FD_LEDGER_UNCHANGED))
   ENS("C10/redirect_init.file_is_users", IMPLIES(RV == 0 && RTYPE == RT_FILE, gc.cfg_file_fd >= 0 && *child == gc.cfg_file_fd && FD_LEDGER_UNCHANGED))
   ENS("C10/redirect_init.stdout_shares_childs_stdout", IMPLIES(RV == 0 && RTYPE == RT_STDOUT, *child == out && FD_LEDGER_UNCHANGED))
+  ENS("C05/redirect_init.null_device_fallback_is_recorded_for_release", RD_T(*redirect) == ((RV == 0 && RTYPE == RT_PARENT && PARENT_FALLS_BACK) ? RT_DISCARD : RTYPE))
   ENS("C10/redirect_init.parent_end_only_for_pipes", IMPLIES(RV == 0 && RTYPE != RT_PIPE, *parent == -1))
   ENS("C05/redirect_init.failure_leaves_no_descriptor", IMPLIES(RV != 0, FD_LEDGER_UNCHANGED && *parent == OLD(*parent) && *child == OLD(*child)))
   ENS("C05/redirect_init.other_descriptors_untouched", FD_FRAME_EXCEPT(RV == 0 ? ((RTYPE == RT_PIPE ? MASK_OF(*parent) : 0u) | ((RTYPE == RT_PIPE || OPENS_FILE) ? MASK_OF(*child) : 0u)) : 0u))
